@@ -2,7 +2,7 @@ SPECIFICATION Spec
 CONSTANTS
   Conn <- C2
   MaxLen = 2
-  MaxIll = 1
+  MaxIll = 0
   MaxRot = 1
   Kinds <- KSmall
   Cuts <- CutsAll
